@@ -734,12 +734,14 @@ func init() {
 			c.LookupsReadOnly("C18")
 			c.ResolvedName("C18")
 			c.LosslessSplit("C18")
+			c.FirstSlashOnly("C18")
 			c.ListRuleApproves("C18")
 			c.IdentitySource("C19")           // "permitted" is judged under the name the connection authenticated with
 			c.RulerPositions("C18")           // the ruler leaves the request (the path list the lister is iterating over) as it was handed over
 			c.CredentialsRequestScoped("C19") // every decision is taken under the request's own authenticated name
 			c.CheckSemantics("C07")           // "permitted" is what the permission checker answers for the account's name
 			c.RegexWholeName("C07")
+			c.ListsAsGiven("C18")           // every configured store is walked
 			c.OneInstance("C18", "fetcher") // the lister reads the fetcher instance that run-time creation adds to
 			c.ConfigOrderPreserved("C07")   // ... from the operation lists in the order the operator wrote them (first match wins)
 			c.ThresholdRules("C12")         // incl. C12.O4: an account created through Dirk reaches the cache the listing reads
